@@ -25,7 +25,7 @@ pub fn hosts() -> Vec<(&'static str, Host)> {
     vec![("none", Host::none()), ("declining", declining), ("accepting", accepting)]
 }
 
-const LITS: [&str; 29] = [
+const LITS: [&str; 31] = [
     "0",
     "1",
     "31",
@@ -55,6 +55,9 @@ const LITS: [&str; 29] = [
     "(1 'ab')",
     "(\"a\" 'b' :s (2 3))",
     "((1 = 'a') <> \"b\")",
+    // an empty list and an empty text made at run time
+    "(\"\" ~# (# (1 2)))",
+    "(() ~# (# \"a\"))",
 ];
 
 const BINOPS: [&str; 36] = [
@@ -325,7 +328,8 @@ impl Property for C07 {
         l.deep + l.boundary + l.programs + token_total(tier)
     }
     fn budget_ms(&self) -> u64 {
-        20_000
+        // the 50 000-level deep-data cases take seconds on an idle machine and much longer on a loaded one
+        60_000
     }
     fn crash_is_violation(&self) -> bool {
         true
@@ -434,7 +438,7 @@ impl Property for C07 {
     fn meta(&self, tier: Tier) -> Meta {
         let l = layout(tier);
         Meta {
-            rule: format!("(a) the {} programs of the C01 corpora and every accepted input of the C03/C04 token corpora (K1, K2, K4, K5; lengths up to 5 in the quick tier, up to length 6 in the thorough tier); (b) {} boundary programs: every prefix/suffix operator on, and every binary operator (ranges, casts, concatenation, partial apply, conditionals included) between, 29 boundary literals (i32 limits, 31/32/33/64, huge float, empty and multi-byte text, empty bytes, symbol, symbol and identifier with a multi-byte name, unit, list, keyed list, range, concatenation, lists and concatenations holding text, bytes, symbols and lists), casts to the type of each literal, and index / apply / slice / slice-of-slice families over 6 container kinds x 10 boundary indexes (incl. +-1e300); each run to completion (step cap 2 000; 300 for token-corpus inputs, which include loops that never end) on both implementations under hosts {{none, declining, accepting}} (corpus programs: none and accepting in the quick tier, T4 loops without a host) with a mixed keyed/unkeyed list as input; (c) {} deep-data cases: pairs (left/right nested), lists and concatenations nested 10/100/1 000/5 000/50 000 deep built through the data API, each on a thread with a 2 MiB stack (the default of spawned threads), then Equal (self, copy), LessThan, casts to CharList/ByteList/Symbol, `.|`, clone_data as single instructions. Verdict: no panic unwinds, no abort, no hang (supervised). Non-trivial: every case; distinct by text / parameters.", l.programs, l.boundary, l.deep),
+            rule: format!("(a) the {} programs of the C01 corpora and every accepted input of the C03/C04 token corpora (K1, K2, K4, K5; lengths up to 5 in the quick tier, up to length 6 in the thorough tier); (b) {} boundary programs: every prefix/suffix operator on, and every binary operator (ranges, casts, concatenation, partial apply, conditionals included) between, 31 boundary literals (i32 limits, 31/32/33/64, huge float, empty and multi-byte text, empty bytes, symbol, symbol and identifier with a multi-byte name, unit, list, keyed list, range, concatenation, lists and concatenations holding text, bytes, symbols and lists, an empty list and an empty text made by casts), casts to the type of each literal, and index / apply / slice / slice-of-slice families over 6 container kinds x 10 boundary indexes (incl. +-1e300); each run to completion (step cap 2 000; 300 for token-corpus inputs, which include loops that never end) on both implementations under hosts {{none, declining, accepting}} (corpus programs: none and accepting in the quick tier, T4 loops without a host) with a mixed keyed/unkeyed list as input; (c) {} deep-data cases: pairs (left/right nested), lists and concatenations nested 10/100/1 000/5 000/50 000 deep built through the data API, each on a thread with a 2 MiB stack (the default of spawned threads), then Equal (self, copy), LessThan, casts to CharList/ByteList/Symbol, `.|`, clone_data as single instructions. Verdict: no panic unwinds, no abort, no hang (supervised). Non-trivial: every case; distinct by text / parameters.", l.programs, l.boundary, l.deep),
             assumptions: vec![
                 "an Err returned by a step is acceptable; only unwinding, aborting and exceeding the wall budget are violations".into(),
                 "a worker that aborts (stack overflow) or hangs is attributed to the in-flight element by the supervisor and confirmed in a fresh process".into(),
